@@ -286,3 +286,55 @@ def _ct(d):
     c2 = CreationTime()
     c2.created = bytearray(octets)
     return octets, calendar.timegm(c2.created.utctimetuple())
+
+
+def mpi_reencode_bounded(tier='quick', seed=0, known=()):
+    """decode -> encode -> decode of multiprecision integers whose announced bit count is NOT the canonical one (other producers round the
+    count up, keep the count of the modulus, or leave leading zero octets): what PGPy writes back must be the RFC 4880 3.2 encoding of
+    the value, so that it decodes back to the same value and consumes exactly its own octets. (The two functions are proved separately
+    for canonical input; this is their composition on foreign input.)"""
+    import random
+    from pgpy.packet.types import MPI
+    from specs import mpi as S
+    rng = random.Random(seed)
+    cases, viol, samples, distinct = 0, [], [], set()
+    bitlens = list(range(0, 70)) + [127, 128, 129, 255, 256, 257, 1023, 1024, 1025, 2047, 2048, 4095, 4096, 4200]
+    if tier != 'quick':
+        bitlens = list(range(0, 4201))
+    tail = b'\xAA\xBB\xCC'
+    for bl in bitlens:
+        vals = {0} if bl == 0 else {1 << (bl - 1), (1 << bl) - 1, (1 << (bl - 1)) | rng.getrandbits(bl)}
+        for v in sorted(vals):
+            nb = (v.bit_length() + 7) // 8
+            for slack in (0, 1, 3, 7, 8, 9, 16):                 # announced count = true count + slack
+                ann = v.bit_length() + slack
+                width = (ann + 7) // 8
+                if ann > 65535:
+                    continue
+                enc = ann.to_bytes(2, 'big') + v.to_bytes(width, 'big')
+                buf = bytearray(enc + tail)
+                cases += 1
+                distinct.add((bl, slack))
+                why = None
+                try:
+                    m = MPI(buf)
+                    if int(m) != v or bytes(buf) != tail:
+                        why = 'decoded %r (want %r) or the octets left over differ' % (int(m), v)
+                    else:
+                        out = bytes(m.to_mpibytes())
+                        if out != bytes(S.mpi_encode(v)):
+                            why = 'written back as %s, RFC 4880 3.2 encoding of the value is %s' % (out[:6].hex(), bytes(S.mpi_encode(v))[:6].hex())
+                        else:
+                            buf2 = bytearray(out + tail)
+                            m2 = MPI(buf2)
+                            if int(m2) != v or bytes(buf2) != tail:
+                                why = 'the octets written back decode to %r (want %r) or do not end where they should' % (int(m2), v)
+                except Exception as ex:
+                    why = 'exception %r' % (ex,)
+                if len(samples) < 3 and slack:
+                    samples.append({'value_bits': v.bit_length(), 'announced_bits': ann, 'encoded_prefix': enc[:6].hex()})
+                if why and len(viol) < 5:
+                    viol.append({'case': {'value_bits': v.bit_length(), 'announced_bits': ann, 'encoded_prefix': enc[:8].hex()}, 'what': why})
+    return {'name': 'C09/mpi-reencode', 'bound': 'values of %d bit lengths (boundary patterns: top bit only, all ones, random) x announced bit count = true count + {0,1,3,7,8,9,16}' % len(bitlens),
+            'cases': cases, 'distinct_nontrivial': len([d for d in distinct if d[1]]), 'rule': 'one case per (value, announced slack); non-trivial = the announced count is not the canonical one',
+            'exhaustive': tier != 'quick', 'samples': samples, 'violations': viol, 'known_hits': []}
